@@ -124,6 +124,15 @@ def cut_loop(I, node, env, spec):
     seq = None
     if is_for:
         seq = I.eval(node.iter, env)
+        from .values import LazyDictV
+
+        if isinstance(seq, LazyDictV):
+            seq = I.lib.ItemsView(seq, "keys")
+        if isinstance(seq, I.lib.ItemsView) and isinstance(seq.d, LazyDictV):
+            from . import lazydict
+
+            view = lazydict.items_seq(I, seq.d, seq.kind, node)
+            seq = ListV(view) if isinstance(view, list) else view
 
     init = spec.get("init")
     if init is not None:
